@@ -35,8 +35,8 @@ ASSUMPTIONS = ["reference model: reads are no-ops, selections are snapshots, a[.
                "canonical form drops only the memo `_size` (a cache of sum(lengths); lengths never change and every state observation reads .size)",
                "known finding 'lazy-view-write-through' is classified by an explicit buffer-sharing model; only deviations equal to that model are attributed to it"]
 REQUIRED_FEATURES = ["pending_selection", "write_after_read", "alias_derivation",
-                     "three_variables", "selection_of_selection", "write_through_alias", "write_through_read_result"]
-BOUNDS = {"quick": "2 base arrays, 3 variables, every history of depth <= 4 over 9 selectors x 6 writes x 22 reads (all variables / sources), "
+                     "three_variables", "selection_of_selection", "write_through_alias", "write_through_read_result", "write_to_callers_buffer"]
+BOUNDS = {"quick": "2 base arrays, 3 variables, every history of depth <= 4 over 9 selectors x 6 writes x 26 reads (all variables / sources), "
                    "plus depth 5 for histories on the first base whose first two steps are derivations",
           "thorough": "3 base arrays, depth <= 5 complete, depth 6 after two derivations"}
 
@@ -55,7 +55,8 @@ WRITES = ["row0", "col0", "fill", "cell", "rows1", "from"]
 # read name -> touches (materialises a pending variable)?
 READS = {"meta": False, "repr": True, "tolist": True, "ravel": True, "x[0]": True, "x[1:]": False, "x[:,::-1]": False,
          "x[0,0]": True, "x+1": True, "sum-1": True, "sum0": True, "concat": True, "x[...]": True, "x+y": True,
-         "x[:,::2]": False, "x[mask]": True, "rslice": True, "col_counts": False, "x*fcol": True, "argmax": True, "x[ri,ci]": True, "colvals": False}
+         "x[:,::2]": False, "x[mask]": True, "rslice": True, "col_counts": False, "x*fcol": True, "argmax": True, "x[ri,ci]": True, "colvals": False,
+         "sort": True, "unique": True, "cumsum": True, "nonzero": True}
 # writes THROUGH the ndarray a read returned (r = x[0]; r[...] = -4).  Whether such a result is a view or a copy is the library's
 # choice, so these steps have no model; they are judged by the read-commutation oracle alone and not expanded further.
 VIA = ["x[0]", "x[-1]", "x[-1,0:2]", "x[0,::2]", "ravel", "x[:,0]", "sum-1"]
@@ -82,7 +83,11 @@ def shards(tier):
     bases = Q_BASES if tier == "quick" else T_BASES
     depth = 4 if tier == "quick" else 5
     n = PARTS[tier]
-    return [{"base": b, "depth": depth, "part": p, "of": n} for b in bases for p in range(n)]
+    out = [{"base": b, "depth": depth, "part": p, "of": n} for b in bases for p in range(n)]
+    # the base array built over a strided view of a caller's buffer ("ext"), with the extra step X = the caller writes to that buffer
+    ne = 4 if tier == "quick" else 16
+    out += [{"base": ["ext"] + Q_BASES[0], "depth": 3 if tier == "quick" else 4, "part": p, "of": ne} for p in range(ne)]
+    return out
 
 
 def _sel(name, n):
@@ -226,7 +231,7 @@ class Lazy:
 def enabled(snap):
     """operations enabled in a model state (the models decide applicability, so no read or write in the alphabet is ever refused)"""
     live = [x for x in VARS if x in snap.v]
-    ops = []
+    ops = [["X"]] if getattr(snap, "ext", False) else []
     free = [x for x in VARS if x not in snap.v]
     if free:
         dst = free[0]
@@ -351,6 +356,14 @@ def do_read(x, r, y=None):
         return x.col_counts()
     if r == "colvals":
         return x.get_column_values(0)
+    if r == "sort":
+        return x.sort(axis=-1)
+    if r == "unique":
+        return np.unique(x, axis=-1, return_counts=True)
+    if r == "cumsum":
+        return x.cumsum(axis=-1)
+    if r == "nonzero":
+        return (x - 2).nonzero()
     if r == "x*fcol":
         from mc.checks.c06 import _fcol
         return x * _fcol(x)          # only an exact, row-independent broadcast survives inf / 1e17 / decimals
@@ -381,6 +394,10 @@ def apply_impl(objs, op):
         return attempt(lambda: do_write(objs, op[1], op[2], op[3] if len(op) > 3 else None))
     if op[0] == "V":
         return attempt(lambda: do_via(objs[op[1]], op[2]))
+    if op[0] == "X":
+        def f():
+            objs["_ext"][...] = -3
+        return attempt(f)
     return observe(lambda: do_read(objs[op[1]], op[2], objs[op[3]] if len(op) > 3 else None), dt=True)
 
 
@@ -391,6 +408,8 @@ def apply_models(snap, lazy, op):
     elif op[0] == "W":
         snap.write(op[1], op[2], op[3] if len(op) > 3 else None)
         lazy.write(op[1], op[2], op[3] if len(op) > 3 else None)
+    elif op[0] == "X":
+        lazy.bufs[0][:] = [-3] * len(lazy.bufs[0])      # the caller's buffer is the first buffer of the explicit buffer-sharing model
     elif op[0] == "V":
         lazy.via(op[1], op[2])          # no specification model (terminal step, judged differentially); the lazy model only attributes
     else:
@@ -398,9 +417,16 @@ def apply_models(snap, lazy, op):
 
 
 def replay(base, hist):
-    rows = dsl.distinct_rows(base)
-    objs = {"a": fresh(rows, np.int64)}
+    ext = bool(base) and base[0] == "ext"
+    rows = dsl.distinct_rows(base[1:] if ext else base)
+    if ext:
+        from npstructures import RaggedArray
+        buf = np.repeat(np.array([v for r in rows for v in r], dtype=np.int64), 2)
+        objs = {"a": RaggedArray(buf[::2], [len(r) for r in rows]), "_ext": buf}
+    else:
+        objs = {"a": fresh(rows, np.int64)}
     snap, lazy = Snapshot(rows), Lazy(rows)
+    snap.ext = ext
     for op in hist:
         apply_impl(objs, op)
         apply_models(snap, lazy, op)
@@ -510,8 +536,8 @@ def _judge(acc, base, hist, op, res, objs, snap, lazy, obs, key, origin, k2, ctx
     if op[0] != "R" and is_refused(res):
         fail("valid-operation-refused", op, res)
         return "bad", None
-    if op[0] == "V":
-        # write through a read's result: only the read-commutation oracle applies (twin = same step without the inserted reads)
+    if op[0] in ("V", "X"):
+        # write through a read's result / through the caller's buffer: only the read-commutation oracle applies (twin = same step without the inserted reads)
         okey, ohist = origin
         if okey != key:
             eo, es, el = replay(base, ohist)
@@ -585,6 +611,8 @@ def _features(acc, op, hist, lazy, self_loop):
         acc.feature("write_after_read")
     if op[0] == "V":
         acc.feature("write_through_read_result")
+    if op[0] == "X":
+        acc.feature("write_to_callers_buffer")
     if op[0] == "D" and op[3] in ALIAS:
         acc.feature("alias_derivation")
     if op[0] == "D" and op[1] == "c":
